@@ -52,6 +52,11 @@ impl Context {
     pub fn get_rent(&self) -> Result<Rent> {
         match self.rent_cache.get() {
             None => {
+                #[cfg(star_frame_verif)]
+                if let Some(rent) = crate::verif_hooks::RENT.get() {
+                    self.rent_cache.set(Some(rent));
+                    return Ok(rent);
+                }
                 let new_rent = Rent::get()?;
                 self.rent_cache.set(Some(new_rent));
                 Ok(new_rent)
@@ -64,6 +69,11 @@ impl Context {
     pub fn get_clock(&self) -> Result<Clock> {
         match self.clock_cache.get() {
             None => {
+                #[cfg(star_frame_verif)]
+                if let Some(clock) = crate::verif_hooks::CLOCK.get() {
+                    self.clock_cache.set(Some(clock));
+                    return Ok(clock);
+                }
                 let new_clock = Clock::get()?;
                 self.clock_cache.set(Some(new_clock));
                 Ok(new_clock)
